@@ -49,6 +49,8 @@ def toy_params(name: str):
 def op_config(op: str) -> str:
     """configuration an op must be evaluated in (second token when it names a curve)"""
     a = op.split(" ")
+    if a[0] == "failed_then":
+        a = a[1:]
     if len(a) > 1 and (a[1].split("/")[0] in NAMED or a[1].startswith("toy:")):
         return split_curve(a[1])[1]
     return "pure"
@@ -204,6 +206,19 @@ def eval_op(op: str) -> str:
                 return "ok %d %d" % (r, s)
             key = BTC.keys.public(parse_pt(a[2]))
             return "ok %d" % (1 if key.verify(int(a[3]).to_bytes(32, "big"), sigencode_der(int(a[4]), int(a[5]))) else 0)
+        if k == "failed_then":
+            # history prefix: a call on the generator object that the library REFUSES (a scalar that is not an integer) comes
+            # first; whatever it did before raising, the object must answer the operation that follows as a fresh one would
+            g0 = _generator(a[2])
+            gs = [g0] + ([_generator(a[2], bf=int(a[4]))] if a[1] == "ec_blindmul" else [])
+            for gx in gs:
+                for bad in (None, "12", 1.5):
+                    for f in (lambda v: gx * v, lambda v: v * gx, gx.raw_mul):
+                        try:
+                            f(bad)
+                        except Exception:  # noqa: BLE001
+                            pass
+            return eval_op(op.split(" ", 1)[1])
         g = _generator(a[1])
         if k == "ec_consts":
             return "ok %d %d %d %d %d %d" % (g._p, g._a, g._b, g[0], g[1], g._order)
